@@ -155,7 +155,7 @@ CLAIMS = {
         "bound uncontradicted signature is OK. The verdict of each pair is exported; cases of every class are realised with real bytes -- reference-built signature, really "
         "RSA-signed authentication record, publications file listing a certificate with the chosen validity window, a scripted extender on the real blocking TCP client "
         "serving an honest calendar database with the chosen deviation -- and KSI_SignatureVerifier_verify must return the spec's result and FAIL code.",
-   note="The environment includes the calendar hash-algorithm lifetime (signature's own chain / extender's chain with a SHA-1 left sibling after 2016-07-01). quick: one case per class (~6-9e3 verifications); thorough: six per class. Where the spec says a resource failure happened on the path, an error status instead of the verdict is accepted (the property allows 'NA, possibly with an error status').",
+   note="The environment includes the calendar hash-algorithm lifetime (signature's own chain / extender's chain with a SHA-1 left sibling after 2016-07-01). TLC: all 1.5e6 (policy, environment) pairs; replay: one case of every coarse class plus a random fill of the fine classes (quick 4 500, thorough 45 000 verifications). Where the spec says a resource failure happened on the path, an error status instead of the verdict is accepted (the property allows 'NA, possibly with an error status').",
    technique="TLC model checking of the transcribed rule trees against the declarative anchor-binding property + replay of the exported verdicts into the real verifier with real PKI, publications files and a scripted extender"),
  "C11": dict(level="model_checking", design_ref="DESIGN.md 4/C11",
    text="Lifecycle.tla models signature objects in slots on one shared context: parse, clone, extend (to the calendar head, to a later time, with the publication "
